@@ -1138,6 +1138,19 @@ func (c *compiler) evalForExpression(node *ast.ForExpression) (interface{}, erro
 }
 
 func (c *compiler) evalBlockStatement(node *ast.BlockStatement) (interface{}, error) {
+	// errors are reported at the statement being evaluated: once this block is
+	// done without one, that is again the statement the block belongs to, not
+	// the block's last statement
+	outer := c.curStmt
+	res, err := c.evalBlock(node)
+	if err == nil {
+		c.curStmt = outer
+	}
+
+	return res, err
+}
+
+func (c *compiler) evalBlock(node *ast.BlockStatement) (interface{}, error) {
 	res := []interface{}{}
 	for _, s := range node.Statements {
 		i, err := c.evalStatement(s)
